@@ -4,6 +4,7 @@ import Fabio.Model.C07Spec
 import Fabio.Model.C07Chain
 import Fabio.Model.ServeHTTP
 import Fabio.Model.C12Parse
+import Fabio.Generated.C07
 namespace Fabio.Driver.C07
 open Lean Fabio.Driver Fabio.Model.C07 Fabio.Model.C07Spec
 
@@ -492,7 +493,40 @@ def serveH : Handler := fun inp impl => do
     return ({ model := m, agree := m == canonImpl, spec := spec,
               nontrivial := decoded.length > 1 || gated || out.cls != "forward", tag := tag } : Verdict).toJson
 
+/-! ### c07.esclen: `escapedLen` — real, translated, model -/
+
+/-- the number of bytes a prefix of an escaped path decodes to, counted the way the code counts: a `%` stands for one
+byte together with the (up to) two bytes behind it — the specification's reference, written without a cursor -/
+def decodedCount : Bytes → Nat
+  | [] => 0
+  | c :: s => if c = PCT then 1 + decodedCount (s.drop 2) else 1 + decodedCount s
+termination_by s => s.length
+decreasing_by all_goals simp_wf <;> omega
+
+def escLenH : Handler := fun inp impl => do
+  let s ← bytes inp "s"
+  let n ← int inp "n"
+  let ci := if isPanic impl then Json.mkObj [("panic", true)] else impl
+  -- the function as the translator regenerated it from the current source
+  let x : Json := match Fabio.Generated.C07.XEscapedLen.run { p0 := s, p1 := n } with
+    | .ok (r, _) => Json.mkObj [("r", r)]
+    | .panic _ => Json.mkObj [("panic", true)]
+  -- the model: what `ServeHTTP` keeps of the escaped path is `dropEscaped n s`
+  let kept := dropEscaped n.toNat s
+  let m : Json := Json.mkObj [("r", ((s.length - kept.length : Nat) : Int))]
+  let r := (impl.getObjValAs? Int "r").toOption.getD (-1)
+  -- the sentence behind it: the cut is inside the string, the prefix cut off stands for exactly `n` decoded bytes
+  -- (all of them when there are fewer), and it never ends inside an escape that is complete
+  let pre := s.take r.toNat
+  let spec := !isPanic impl && 0 ≤ r && r ≤ s.length &&
+    decodedCount pre == min n.toNat (decodedCount s) &&
+    (r.toNat == s.length || decodedCount (s.take (r.toNat + 1)) == decodedCount pre + 1)
+  let tag := if n ≤ 0 then "count-zero" else if n.toNat ≥ decodedCount s then "count-beyond"
+             else if pre.contains PCT then "cut-escaped" else "cut-plain"
+  return ({ model := m, agree := m == ci && x == ci, spec := spec, nontrivial := pre.contains PCT || n.toNat ≥ decodedCount s,
+            tag := tag ++ (if x == ci then "" else "/xlate-differs") } : Verdict).toJson
+
 def streams : List (String × Handler) :=
   [("c07.url", urlH), ("c07.body", bodyH), ("c07.noroute", norouteH), ("c07.escape", escapeH),
-   ("c07.serve", serveH)]
+   ("c07.serve", serveH), ("c07.esclen", escLenH)]
 end Fabio.Driver.C07
